@@ -209,3 +209,48 @@ func verifC17ResolverPath() {
 	vAssert((conn != nil) == (err == nil), "a connection or an error")
 	vReach("resolver-path")
 }
+
+// verifC17AddressForms: the TLS server name is the host part of what the caller
+// named, for every form of address: IP literals with and without brackets or
+// port, a name with a trailing dot, padded list entries; a name that fails to
+// resolve does not stop the remaining names of the list from being tried.
+func verifC17AddressForms() {
+	dns.VerifHook_DoH = func(ctx context.Context, msg *dns.Message, URL string) (*dns.Message, error) {
+		d, _ := dns.DecodeMessage(msg.Bytes())
+		q := d.Question[0]
+		m := &dns.Message{QR: 1}
+		if q.Name == "bad.example" {
+			m.RCode = 2
+			return m, nil
+		}
+		if q.Type == 1 {
+			m.Answer = append(m.Answer, dns.RR{Name: q.Name, Type: 1, Class: 1, TTL: 60, Data: net.IP{10, 0, 0, 5}})
+		}
+		return m, nil
+	}
+	forms := []struct{ addr, sn, dial string }{
+		{"[2001:db8::1]:443", "2001:db8::1", "[2001:db8::1]:443"},
+		{"192.0.2.7:8443", "192.0.2.7", "192.0.2.7:8443"},
+		{"h1.example.:443", "h1.example.", "10.0.0.5:443"},
+		{" h2.example:8443 ", "h2.example", "10.0.0.5:8443"},
+		{"bad.example:443,h2.example:443", "h2.example", "10.0.0.5:443"},
+		{"192.0.2.7", "192.0.2.7", "192.0.2.7:443"},
+	}
+	f := forms[vInt(0, len(forms)-1)]
+	var calls []vDialCall
+	d := &Dialer[*vDialConn]{Resolver: &Resolver{}, MaxConcurrency: 1}
+	d.DialFunc = func(ctx context.Context, network, addr string, c *tls.Config) (*vDialConn, error) {
+		calls = append(calls, vDialCall{addr: addr, serverName: c.ServerName})
+		return nil, errVTransport
+	}
+	_, err := d.Dial(context.Background(), "tcp", f.addr, nil)
+	vAssert(err != nil, "every attempt fails here")
+	vAssert(len(calls) == 1 && calls[0].addr == f.dial, "the named address is dialled (a name that does not resolve does not stop the others)")
+	if len(calls) == 1 {
+		vAssert(calls[0].serverName == f.sn, "the TLS server name is the host part of the address the caller named")
+	}
+	if f.addr[0] == 'b' {
+		vAssert(errors.Is(err, ErrServerFailure), "the resolution failure of the other name is part of the returned error")
+	}
+	vReach("address-forms")
+}
